@@ -155,9 +155,6 @@ theorem abs_stepSnapBegin {s : State} (h : Inv s) (k : Key) (t : Int) :
     touch_hot, touch_snap, touch_files]
   · -- idle: hot moves to the (empty) snapshot store
     rw [h.idle_snap hp]; simp [Log.get_nil]
-  · -- failed: hot is folded into the retried snapshot store
-    simp only [Log.get_nil, Option.none_or, Log.get_append]
-    cases Log.get s.hot k t <;> simp
 
 theorem inv_stepSnapBegin {s : State} (h : Inv s) : Inv (stepSnapBegin s).1 := by
   unfold stepSnapBegin
